@@ -44,6 +44,7 @@ func genC18(seed uint64, tier string) *plan.Plan {
 	pl := &plan.Plan{Cfg: map[string]int64{}}
 	pl.Cfg["v6"] = int64(r.IntN(2))
 	pl.Cfg["idle_ns"] = int64(90 * 24 * time.Hour) // the clock is moved by whole days
+	pl.Cfg["bundle"] = int64(r.IntN(2))            // the collector's certificate file holds the leaf alone / leaf + issuing CA
 	n := 1 + r.IntN(3)
 	if r.IntN(3) == 0 {
 		pl.Cfg["reuse"] = 1
@@ -399,7 +400,7 @@ func c18SendSome(ep *exporter.ExportingProcess) int {
 }
 
 func c18RealCollector(env *Env, where, addr string, proto int, srv certPair, clientCA bool, z *zoo, ein exporter.ExporterInput, e c18Expect, domain uint32) {
-	cin := collector.CollectorInput{Address: addr, Protocol: []string{"tcp", "udp"}[proto], MaxBufferSize: 65535, IsEncrypted: true, ServerCert: srv.CertPEM, ServerKey: srv.KeyPEM, TemplateTTL: 7200}
+	cin := collector.CollectorInput{Address: addr, Protocol: []string{"tcp", "udp"}[proto], MaxBufferSize: 65535, IsEncrypted: true, ServerCert: srv.serverPEM(cfgOr(env.Plan, "bundle", 0) == 1), ServerKey: srv.KeyPEM, TemplateTTL: 7200}
 	if clientCA && proto == 0 {
 		cin.CACert = z.CA.PEM
 	}
@@ -533,7 +534,7 @@ func c18UnusableClientCA(env *Env, where, addr string, z *zoo, ein exporter.Expo
 // configuration: what an earlier exporting process of the same application was allowed to do says
 // nothing about a later one.
 func c18SharedCollector(env *Env, where, addr string, srv certPair, cert, cliCA, day int, v6 bool, z *zoo, ein exporter.ExporterInput, exps []plan.Op, domain0 uint32, cliCerts []certPair) {
-	cin := collector.CollectorInput{Address: addr, Protocol: "tcp", MaxBufferSize: 65535, IsEncrypted: true, ServerCert: srv.CertPEM, ServerKey: srv.KeyPEM, TemplateTTL: 7200}
+	cin := collector.CollectorInput{Address: addr, Protocol: "tcp", MaxBufferSize: 65535, IsEncrypted: true, ServerCert: srv.serverPEM(cfgOr(env.Plan, "bundle", 0) == 1), ServerKey: srv.KeyPEM, TemplateTTL: 7200}
 	if cliCA == 1 {
 		cin.CACert = z.CA.PEM
 	}
